@@ -5,6 +5,7 @@ import Rbql.Model.ReaderJs
 import Rbql.Model.Writer
 import Rbql.Model.Like
 import Rbql.Model.PyString
+import Rbql.Model.Sources
 import Driver.Codec
 import Driver.EngineOps
 open Rbql Driver
@@ -98,6 +99,7 @@ def step (line : String) : String :=
           let t := if enc == "none" then text else univNewlines text
           encRead (readAll (mkCfg pol enc (toString (t.length + 1)) d "~") false none (if t.isEmpty then [] else [t]))
       s!"{encWrite w} | {rd}"
+  | ["sqlname", name] => (match sqliteStatement (decStr name) with | some st => "S" ++ encStr st | none => "N")
   | ["pyescape", q, name] => encStr (pyEscape (if q == "d" then QUOTE else SQUOTE) (decStr name))
   | ["pyeval", q, body] =>
     (match pyEvalBody (if q == "d" then QUOTE else SQUOTE) (decStr body) with
